@@ -22,6 +22,11 @@ def check(res):
     elif p.returncode != 0 and not leaking:
         keys = True
         res.violation("crash", "c19 driver failed (rc=%d)" % p.returncode, {"stderr": p.stderr[-4000:]})
+    damaged = sorted(set(l.split()[0] for l in lines if l.startswith(("edge-word-damaged", "transient-name-damaged", "global-namespace-name"))))
+    if damaged:
+        keys = True
+        res.violation("oracle:content:" + damaged[0], "a node's own storage does not hold what it was built from: %s" % ", ".join(damaged),
+                      {"reports": [l for l in lines if l.split()[:1] and l.split()[0] in damaged][:5], "rerun": "build/<hash>/asan/c19_driver %d %d" % (n, res.seed)})
     if leaking:
         keys = True
         # first allocation site reported
